@@ -933,6 +933,16 @@ def describe(tier):
                 "cusum_given_(target,sd_hat)": [list(x) for x in GIVEN_TS],
                 "burn_in": {"CUSUM-given": BURN_GIVEN, "CUSUM-est": BURN_EST, "PageHinkley": BURN_PH},
             },
+            "round3_families": {
+                "value_alphabets": {k: ALPHABETS[k] for k in sorted(ALPHABETS)},
+                "containers_and_dtypes": FEEDS,
+                "dfs": [
+                    {"system": sy, "family": fam, "params": pp, "alphabet": al, "feed": fd, "depth": dq if tier == "quick" else dt}
+                    for sy, fam, pp, al, fd, dq, dt in X_DFS
+                ],
+                "long": "CUSUM() and PageHinkley() with default parameters on a level-shift history of length 160 over "
+                "{-2,0,1,4}, every history with <= 1 replaced position",
+            },
             "deviation_mode": {
                 "L": 40,
                 "configurations": [
@@ -958,5 +968,15 @@ def describe(tier):
             "that float arithmetic is exact; otherwise relative margins <= 1e-9 follow the implementation "
             "(near_tie_steered); math.sqrt is trusted for irrational standard deviations",
             "only drift_state (and to_dataframe()) decide; total/since counters are recorded, not compared (C01)",
+            "round-3 families: a step counts as exact arithmetic (ties enforced) only if every operand and intermediate "
+            "of the detector's expression is representable in the significand of its arithmetic (53 bits; 24 for "
+            "float32-typed streams); otherwise decisions whose two sides are closer than the family's absolute rounding "
+            "noise (64*L*eps*max|x|; CUSUM: divided by sd) or than the relative margin follow the implementation; "
+            "Page-Hinkley columns are compared within that noise (mean: /16, theta: *|threshold|/16), change_scores exactly",
+            "CUSUM on a constant window of non-dyadic numbers: the exact standard deviation is 0, numpy's is rounding "
+            "noise or 0 - raising the documented ValueError and not raising are both accepted and the branch is closed "
+            "(round-3 families only; the legacy families enforce the ValueError)",
+            "negative delta, negative thresholds, CUSUM(target=None, burn_in=0), float16 / boolean input are not explored "
+            "(not documented as legal); the deviation-free L=160 history is executed once per third of the positions",
         ],
     }
